@@ -117,6 +117,66 @@ func genPart(cfg Config, emit func(string, bool, []string)) {
 		}
 		g.emit("new %d", ro)
 		g.addVer(-1)
+		if c%16 == 7 {
+			// a clone of an UNCOMMITTED transaction used as a tree in its own right: watches taken
+			// from the clone, then a transaction opened on the clone changes keys below nodes the
+			// parent transaction wrote
+			first := r.IntN(2) == 0 // clone of the very first transaction on the new tree, or of a later one
+			base := 0
+			if !first {
+				g.emit("txn 0")
+				g.emit("ins %s 1", hx([]byte("z/1")))
+				g.emit("ins %s 2", hx([]byte("b/0")))
+				g.emit("commit")
+				g.addVer(0)
+				g.head = g.nvers - 1
+				g.emit("notify")
+				base = g.head
+			}
+			g.emit("txn %d", base)
+			for i, q := range []string{"b/1", "b/2", "b/3", "c/1"} {
+				g.emit("ins %s %d", hx([]byte(q)), 10+i)
+			}
+			g.emit("clone")
+			g.addVer(base)
+			cl := g.nvers - 1
+			// the parent transaction is abandoned: Clone() is documented "for reading", and a write
+			// transaction on the clone after the parent's Notify() would close the shared root
+			// channel a second time (DESIGN.md note N8) — not generated
+			g.emit("abandon")
+			for round := 0; round < 2; round++ {
+				for _, q := range []string{"b/", "b", "b/1", "b/2", "b/9", "c/", ""} {
+					g.emit("vprefix %d %s", cl, hx([]byte(q)))
+					g.emit("vget %d %s", cl, hx([]byte(q)))
+				}
+				g.emit("vrootwatch %d", cl)
+				g.emit("txn %d", cl)
+				for i := 1 + r.IntN(3); i > 0; i-- {
+					switch r.IntN(4) {
+					case 0:
+						g.emit("ins %s %d", hx([]byte("b/9")), 30+i)
+					case 1:
+						g.emit("ins %s %d", hx([]byte("b/1")), 40+i)
+					case 2:
+						g.emit("del %s", hx([]byte("b/2")))
+					case 3:
+						g.emit("ins %s %d", hx([]byte("c/2")), 50+i)
+					}
+				}
+				g.emit("commit")
+				g.addVer(cl)
+				g.emit("closed")
+				g.emit("notify")
+				g.emit("closed")
+				g.emit("viter %d", cl)
+				cl = g.nvers - 1
+			}
+			for v := 0; v < g.nvers; v++ {
+				g.emit("viter %d", v)
+			}
+			emit("part clone-branch", true, g.ops)
+			continue
+		}
 		if c%8 == 3 {
 			// threshold walker: one child removed (or added) per transaction across each
 			// node-size boundary, with watches on the node taken just before
